@@ -38,6 +38,9 @@ def gen_history_case(ctx, run, prop, **over):
         # Contents only: "exactly once" (C02) is not what the unmodified code does for such actions.
         cfg["ft_via_ref"] = True
         cfg["weights"]["regf"] = max(cfg["weights"].get("regf", 0), 8)
+        # no linear knobs in these runs: a knob downstream of such an action runs twice in one update (on the intermediate and on
+        # the final value of its source) and books its increment in two parts - the same number up to rounding only
+        cfg["weights"]["regk"] = 0
     spec = gen_spec(rng_for(ctx.seed, prop, run, "spec"), cfg)
     hg = HistoryGen(rng_for(ctx.seed, prop, run, "ops"), cfg, spec)
     ops = hg.history()
@@ -114,6 +117,8 @@ class C01:
                 if op[0] == "faulty":
                     pending_fault = (op[1], op[2])
                     continue
+                if op[0] == "regk" and cfg.get("ft_via_ref"):
+                    continue            # see gen_history_case: no linear knobs beside actions that assign through references
                 if frozen:
                     if classify_frozen(ex.model, op) != "plain":
                         continue            # would change the graph: C17's business
